@@ -744,7 +744,13 @@ void Analyser::AnalyserImpl::analyseNode(const XmlNodePtr &node,
         auto childCount = mathmlChildCount(node);
 
         analyseNode(mathmlChildNode(node, 0), ast, astParent, component, equation);
-        analyseNode(mathmlChildNode(node, 1), ast->mPimpl->mOwnedLeftChild, ast, component, equation);
+
+        // An 'apply' element with only one child (e.g. <apply><cn>2</cn></apply>, which the validator accepts)
+        // has no operand to analyse.
+
+        if (childCount >= 2) {
+            analyseNode(mathmlChildNode(node, 1), ast->mPimpl->mOwnedLeftChild, ast, component, equation);
+        }
 
         if (childCount >= 3) {
             AnalyserEquationAstPtr astRightChild;
@@ -945,7 +951,11 @@ void Analyser::AnalyserImpl::analyseNode(const XmlNodePtr &node,
 
         ast->mPimpl->populate(AnalyserEquationAst::Type::PIECEWISE, astParent);
 
-        analyseNode(mathmlChildNode(node, 0), ast->mPimpl->mOwnedLeftChild, ast, component, equation);
+        // An empty 'piecewise' element (which the validator accepts) has no piece to analyse.
+
+        if (childCount >= 1) {
+            analyseNode(mathmlChildNode(node, 0), ast->mPimpl->mOwnedLeftChild, ast, component, equation);
+        }
 
         if (childCount >= 2) {
             AnalyserEquationAstPtr astRight;
